@@ -26,9 +26,9 @@ IterLeft(a, k) == LET n == Cardinality(SetOf(a)) IN IF k >= n THEN 0 ELSE n - k
 \* expected result of a binary operation on effect sets (as bits)
 BinOp(op, a, b) ==
   CASE op = "insert" -> Bits(SetOf(a) \cup SetOf(b))
-    [] op = "or"     -> Bits(SetOf(a) \cup SetOf(b))
+    [] op \in {"or", "or_assign"} -> Bits(SetOf(a) \cup SetOf(b))
     [] op = "remove" -> Bits(SetOf(a) \ SetOf(b))
-    [] op = "sub"    -> Bits(SetOf(a) \ SetOf(b))
+    [] op \in {"sub", "sub_assign"} -> Bits(SetOf(a) \ SetOf(b))
     [] op = "set1"   -> Bits(SetOf(a) \cup SetOf(b))
     [] op = "set0"   -> Bits(SetOf(a) \ SetOf(b))
     [] op = "contains" -> IF SetOf(b) \subseteq SetOf(a) THEN 1 ELSE 0
